@@ -55,6 +55,14 @@ def place_root(b, p):
         return ("local", l), proj
     if ty in ("&mut " + BS, "&" + BS) and proj and proj[0]["k"] == "deref":
         return ("ptr", l), proj[1:]
+    if ty.startswith("&mut ") and proj and proj[0]["k"] == "deref":
+        # a pointer into a BoardState (`let flag = &mut self.white_king_side_castle; *flag = false`)
+        from wa.mir import alias_of
+        r, mode, pr0 = alias_of(b, l)
+        if mode == "ptrref" and b.local_ty(r) in ("&mut " + BS,):
+            return ("ptr", r), list(pr0) + list(proj[1:])
+        if mode == "ref" and b.local_ty(r) == BS:
+            return ("local", r), list(pr0) + list(proj[1:])
     return None, None
 
 
@@ -275,8 +283,8 @@ def r5_2(ctx):
                            "XOR term `%s` has no matching state change in the same control region (doubled or stray update)" % (
                                t[0] + "(" + ", ".join(show_expr(a, b)[:40] for a in t[1:] if isinstance(a, tuple)) + ")"))
     ctx.info["raw_writes"] = nw
-    ctx.floor("raw writes of hashed components outside helpers", nw, 6)
-    ctx.floor("XOR statements outside helpers", nx, 6)
+    ctx.floor("raw writes of hashed components outside helpers", nw, 3)
+    ctx.floor("XOR statements outside helpers", nx, 3)
 
 
 def r5_positive_control(ctx):
@@ -333,45 +341,59 @@ def r5_1(ctx):
             detail = "on the path where to_move is %s it becomes %s and the side key is XORed once" % (seen, v[2] if v[0] == "agg" else "?")
         ctx.ob("swap_color:path#%d" % pi, ok, b.where((blocks[-1], 0)), detail or "each path must toggle to_move once and XOR the side key once; events: %s" % [(e[2], e[3][1]) for e in es])
     ctx.floor("swap_color paths", len(paths), 2)
-    # --- take_away_castling_rights
-    b = f.body(TAKE)
-    ev = Events(b)
-    ex = ev.ex
-    paths = enum_paths(b, ex)
+    # --- take_away_castling_rights: decided per castling type on the body specialised to that type
+    # (`castling_type == V && self.flag_V` chains and `match castling_type {V => &mut self.flag_V}` alike)
+    from wa.cond import specialise
+    tb = f.body(TAKE)
+    ctp = [i for i in range(1, tb.arg_count + 1) if tb.local_ty(i) == "move_generation::CastlingType"]
+    if len(ctp) != 1:
+        raise ShapeNotRecognised("take_away_castling_rights(.., castling_type: CastlingType, ..)")
+    cte = ("arg", ctp[0])
     cleared = set()
-    for pi, (blocks, dec) in enumerate(paths):
-        es = _path_events(b, ev, blocks)
-        if not es:
-            continue
-        ws = [e for e in es if e[2] == "w"]
-        xs = [e for e in es if e[2] == "x"]
-        ok = len(ws) == 1 and len(xs) == 1 and ws[0][3][1] in FLAG_VARIANT and xs[0][3][2] and len(xs[0][3][1]) == 1
-        why = "events: %s" % [(e[2], e[3][1]) for e in es]
-        if ok:
-            flag = ws[0][3][1]
-            want = FLAG_VARIANT[flag]
-            t = xs[0][3][1][0]
-            xv = strip_refs(t[1]) if t[0] == "castle" else None
-            ok_x = xv is not None and xv[0] == "agg" and xv[2] == want
-            ok_v = ws[0][3][3] == ("const", False)
-            # path facts: castling_type == want, flag == true
-            ok_ty = ok_flag = False
-            for d, (vals, oth) in dec.items():
-                tr = decision_truth(dec, d)
-                if d[0] == "bin" and d[1] == "Eq" and tr is True:
-                    a, c = strip_refs(d[2]), strip_refs(d[3])
-                    for u, w in ((a, c), (c, a)):
-                        if w[0] == "agg" and w[1] == "move_generation::CastlingType" and w[2] == want:
-                            ok_ty = True
-                if tr is True and strip_refs(d)[0] == "field" and strip_refs(d)[2] == flag:
-                    ok_flag = True
-            ok = ok_x and ok_v and ok_ty and ok_flag
-            why = "clears %s (value false: %s) under castling_type == %s: %s, under the flag being set: %s, XORs castle(%s): %s" % (
-                flag, ok_v, want, ok_ty, ok_flag, want, ok_x)
+    for flag, want in sorted(FLAG_VARIANT.items()):
+        b, _ex2, _dead = specialise(tb, {cte: ("eq", want)}, {cte: cvariants})
+        ev = Events(b)
+        ex = ev.ex
+        paths = enum_paths(b, ex)
+        npaths = 0
+        all_ok = True
+        for pi, (blocks, dec) in enumerate(paths):
+            es = _path_events(b, ev, blocks)
+            if not es:
+                # no change on this path: fine only if the right is known to be gone already
+                known_unset = False
+                for d in dec:
+                    tr = decision_truth(dec, d)
+                    sd = strip_refs(d)
+                    if tr is False and sd[0] == "field" and sd[2] == flag:
+                        known_unset = True
+                ctx.ob("take_away_castling_rights:%s:unchanged-path#%d" % (want, pi), known_unset, b.where((blocks[-1], 0)),
+                       "with castling_type == %s nothing changes only when %s is already false" % (want, flag))
+                all_ok = all_ok and known_unset
+                continue
+            npaths += 1
+            ws = [e for e in es if e[2] == "w"]
+            xs = [e for e in es if e[2] == "x"]
+            ok = len(ws) == 1 and len(xs) == 1 and ws[0][3][1] == flag and xs[0][3][2] and len(xs[0][3][1]) == 1
+            why = "events: %s" % [(e[2], e[3][1]) for e in es]
             if ok:
-                cleared.add(flag)
-        ctx.ob("take_away_castling_rights:path#%d" % pi, ok, b.where(es[0][4]), why)
-    ctx.ob("take_away_castling_rights:all-four-rights", cleared == set(FLAG_VARIANT), b.where((0, 0)), "rights handled: %s" % sorted(cleared))
+                t = xs[0][3][1][0]
+                xv = strip_refs(t[1]) if t[0] == "castle" else None
+                ok_x = xv is not None and ((xv[0] == "agg" and xv[2] == want) or xv == cte)
+                ok_v = ws[0][3][3] == ("const", False)
+                ok_flag = False
+                for d in dec:
+                    tr = decision_truth(dec, d)
+                    sd = strip_refs(d)
+                    if tr is True and sd[0] == "field" and sd[2] == flag:
+                        ok_flag = True
+                ok = ok_x and ok_v and ok_flag
+                why = "with castling_type == %s: clears %s (value false: %s), only when the flag is set: %s, XORs castle(%s): %s" % (want, flag, ok_v, ok_flag, want, ok_x)
+            ctx.ob("take_away_castling_rights:%s:path#%d" % (want, pi), ok, b.where(es[0][4]), why)
+            all_ok = all_ok and ok
+        if npaths and all_ok:
+            cleared.add(flag)
+    ctx.ob("take_away_castling_rights:all-four-rights", cleared == set(FLAG_VARIANT), tb.where((0, 0)), "rights handled: %s" % sorted(cleared))
     # --- unset_pawn_double_move
     b = f.body(UNSET)
     ev = Events(b)
@@ -531,6 +553,7 @@ def r5_4(ctx):
                 pr, pc = point_of(t[2])
                 # the same control region stores that piece at board[row][col]
                 stored = False
+                stored_piece = None
                 for loc2, st2 in b.iter_stmts():
                     if st2["k"] != "assign":
                         continue
@@ -539,9 +562,12 @@ def r5_4(ctx):
                     if len(idx) == 2 and b.local_ty(p2["local"]).startswith("[[board::Square") and (idx[0], idx[1]) == (pr, pc):
                         if b.node_dominates(loc2[0], loc[0]):
                             stored = True
-                # the piece hashed is the piece read back from that square (I7) or the stored piece
+                            sv = strip_refs(ex.rvalue(st2["rv"], loc2))
+                            if sv[0] == "agg" and sv[1] == "board::Square" and sv[2] == "Full" and sv[3]:
+                                stored_piece = strip_refs(sv[3][0])
+                # the piece hashed is the piece read back from that square (I7) or the very piece stored there
                 pe = strip_refs(t[1])
-                ok_piece = pe[0] == "agg" and pe[1] == "board::Piece"
+                ok_piece = (pe[0] == "agg" and pe[1] == "board::Piece") or (stored_piece is not None and pe == stored_piece)
                 ctx.ob("from_fen:piece-key#%d" % seen["piece"], stored and ok_piece, where,
                        "piece key of %s at (%s, %s): square stored in a dominating block: %s" % (show_expr(pe, b)[:60], show_expr(pr, b), show_expr(pc, b), stored))
             elif t[0] == "ep":
@@ -551,6 +577,22 @@ def r5_4(ctx):
                 ctx.ob("from_fen:ep-key", ok, where, "en-passant file key from the parsed target's column, only when a target was parsed")
                 okg, whyg = _ep_guard_exact(f, b, ex, loc)
                 ctx.ob("from_fen:ep-key:condition", okg, where, whyg)
+            elif t[0] == "castle" and strip_refs(t[1])[0] != "agg" and _table_item(b, ex, strip_refs(t[1])) is not None:
+                # table-driven: `for (granted, ty) in [(flag_K, WhiteKingSide), ..] { if granted { key ^= castle(ty) } }`
+                item, comp, elems = _table_item(b, ex, strip_refs(t[1]))
+                guard_true = any(val is True and strip_refs(d)[0] == "field" and strip_refs(d)[1] == item and strip_refs(d)[2] != comp for d, val in bf.items())
+                gcomp = [strip_refs(d)[2] for d, val in bf.items() if val is True and strip_refs(d)[0] == "field" and strip_refs(d)[1] == item and strip_refs(d)[2] != comp]
+                for el in elems:
+                    el = strip_refs(el)
+                    if not (el[0] == "agg" and el[1] == "tuple" and len(el[3]) == 2):
+                        ctx.ob("from_fen:castle-key:table-element", False, where, "table element is not a (flag, type) pair: %s" % show_expr(el, b)[:60], reason="shape-not-recognised")
+                        continue
+                    ty_e = strip_refs(el[3][int(comp)])
+                    g_e = strip_refs(el[3][int(gcomp[0])]) if gcomp else None
+                    var = ty_e[2] if ty_e[0] == "agg" else None
+                    ok = guard_true and g_e is not None and any(FLAG_VARIANT[k] == var and v_ == g_e for k, v_ in flag_init.items())
+                    seen["castle"].add(var)
+                    ctx.ob("from_fen:castle-key:%s" % var, ok, where, "castling key %s enters under its own flag (table entry guarded by `%s`)" % (var, show_expr(g_e, b)[:50] if g_e else "?"))
             elif t[0] == "castle":
                 v = strip_refs(t[1])
                 var = v[2] if v[0] == "agg" else None
@@ -567,6 +609,32 @@ def r5_4(ctx):
                 ctx.ob("from_fen:unknown-key-term", False, where, "key updated with an unrecognised term: %s" % show_expr(t[1], b)[:80], reason="shape-not-recognised")
     ctx.ob("from_fen:components-complete", seen["piece"] >= 1 and seen["side"] == 1 and seen["ep"] == 1 and seen["castle"] == set(FLAG_VARIANT.values()),
            b.where((0, 0)), "key components built from scratch: piece terms %d, side %d, ep %d, castling %s" % (seen["piece"], seen["side"], seen["ep"], sorted(x for x in seen["castle"] if x)))
+
+
+def _table_item(b, ex, e):
+    """If e is component `.k` of the item of a loop over a literal array (`for x in [a, b, c]`), return
+    (item expression, k, [element expressions]); else None."""
+    if not (e[0] == "field" and e[1][0] == "field" and e[1][2] == "0" and e[1][1][0] == "downcast" and e[1][1][2] == "Some"):
+        return None
+    item = e[1]
+    nxt = e[1][1][1]
+    if not (nxt[0] == "call" and nxt[1].endswith("IntoIter<T, N> as std::iter::Iterator>::next")):
+        return None
+    it = strip_refs(nxt[2][0])
+    if it[0] != "var":
+        return None
+    for dloc, kind in it[2]:
+        if kind != "whole":
+            continue
+        bb, i = dloc
+        st = b.stmts(bb)
+        de = ex.rvalue(st[i]["rv"], dloc) if i < len(st) else ex.call_expr(b.term(bb), dloc)
+        de = strip_refs(de)
+        if de[0] == "call" and de[1].endswith("::into_iter") and de[2]:
+            arr = strip_refs(de[2][0])
+            if arr[0] == "agg" and arr[1] == "array":
+                return item, e[2], list(arr[3])
+    return None
 
 
 def _ep_guard_exact(f, b, ex, xloc):
